@@ -196,6 +196,24 @@ def gen_workflow(rng: random.Random, feat: Features) -> dict:
             gt['queues']['default'] = {'limit': rng.choice([1, 2]),
                                        'members': []}
         assign_queues(gt)
+    gt['xtriggers'] = {}
+    if feat['xtriggers']:
+        for xi in range(rng.randint(1, 3)):
+            label = f'x{xi}'
+            per_cycle = rng.random() < 0.6
+            intvl = rng.choice([3, 5, 10, 20])
+            users = []
+            for sec in rng.sample(sections, rng.randint(1, len(sections))):
+                mem = sorted(section_tasks(sec))
+                if mem:
+                    users.append([sec['rec'], rng.choice(mem)])
+            gt['xtriggers'][label] = {
+                'per_cycle': per_cycle, 'interval': intvl, 'users': users,
+                'need_calls': rng.choice([1, 1, 2, 3]),
+            }
+        gt['xtrig_module'] = (
+            'def vx(name, point=None):\n'
+            '    return (True, {"n": 1})\n')
     if feat['stop_after'] and final > 2 and rng.random() < 0.5:
         gt['stop_after'] = rng.randint(1, final - 1)
     if feat['hold_after'] and final > 2 and rng.random() < 0.5:
@@ -393,9 +411,20 @@ def render(gt) -> str:
             L.append(f'            limit = {spec["limit"]}')
             if q != 'default':
                 L.append(f'            members = {", ".join(spec["members"])}')
+    if gt.get('xtriggers'):
+        L.append('    [[xtriggers]]')
+        for label, x in gt['xtriggers'].items():
+            args = f'name={label}' + (
+                ', point=%(point)s' if x['per_cycle'] else '')
+            L.append(f'        {label} = vx({args}):PT{x["interval"]}S')
     L.append('    [[graph]]')
     for sec in gt['sections']:
         L.append(f'        {sec["rec"]} = """')
+        for label, x in (gt.get('xtriggers') or {}).items():
+            for rec, task in x['users']:
+                if rec == sec['rec']:
+                    L.append(f'            @{label} => '
+                             f'{render_node(gt, task)}')
         for ar in sec['arrows']:
             L.append(f'            {render_expr(gt, ar["lhs"])} => '
                      f'{" & ".join(render_node(gt, r) for r in ar["rhs"])}')
